@@ -342,4 +342,21 @@ example : WF ex := by
   · intro t h; simp [ex] at h; subst h; simp [tokOK]
 example : decodeLine (encodeLine ex) = some ex := by decide +kernel
 
+/-! ### the source text the model was transcribed from
+
+`cobald/monitor/format_line.py` and `format_json.py`: how a line is assembled (name, sorted tags, a space, sorted fields, the optional time stamp, a newline), which arguments of a record become tags and fields, and the JSON document of a record - beside the three escape functions, which are translated.
+`Gen.runtimePins` (recomputed on every run) says for each of these functions whether its normalised
+text is still the text of `harness/vh/pins.json`; a changed function breaks this theorem and the
+correspondence streams are then the search for a failing input. -/
+
+theorem gen_source_text :
+    ∀ n ∈ ["format_line:escape_key",
+     "format_line:escape_field",
+     "format_line:line_protocol",
+     "format_line:LineProtocolFormatter.__init__",
+     "format_line:LineProtocolFormatter.format",
+     "format_json:JsonFormatter.__init__",
+     "format_json:JsonFormatter.format"],
+      Gen.pinned n = true := by decide
+
 end Cobald.Props.C17
